@@ -72,6 +72,24 @@ def unit_C01(src, model='R'):
     return u
 
 
+def unit_C02(src, model='R', dims=(2, 3, 4)):
+    u = Unit('C02', src, model)
+    lib, F = base_linear(u)
+    c_matrix.build_c02(lib, F)
+    u.spec_texts.append(lib.text())
+    u.spec_texts.append(c_matrix.cf_spec())
+    hints, polys, lemmas = c_matrix.c02_hints(F)
+    u.poly_texts += polys
+    u.lemma_texts += lemmas
+    u.contract_fns.insert(0, c_matrix.contracts_c02(hints))
+    u.contract_fns.insert(0, c_matrix.contract_det_sub)
+    u.select(Sel('SquareMatrix', c_matrix.MAT, ['determinant', 'invert']),
+             Sel('Transform', c_matrix.MAT, ['inverse_transform'], trait_args=r'Point3<S>'))
+    u.free_fns.append(('matrix', 'det_sub_proc_unsafe'))
+    add_laws(u, c_matrix.laws_c02(F, dims))
+    return u
+
+
 def unit_C01t(src, model='R'):
     """twin of C01 holding `Transform<Point2<S>> for Matrix3<S>` (see c_matrix.select_c01)"""
     u = Unit('C01t', src, model)
@@ -84,7 +102,7 @@ def build_C03(src, tier):
     return [unit_C03(src, 'R')]
 
 
-UNITS = {'C01': lambda src, tier: [unit_C01(src, 'R'), unit_C01t(src, 'R')], 'C03': build_C03, 'C12': lambda src, tier: [unit_C12(src, 'R')]}
+UNITS = {'C02': lambda src, tier: [unit_C02(src, 'R')], 'C01': lambda src, tier: [unit_C01(src, 'R'), unit_C01t(src, 'R')], 'C03': build_C03, 'C12': lambda src, tier: [unit_C12(src, 'R')]}
 KANI = {}
 META = {
     'C03': dict(min_obligations=350, trust=['A1', 'A2', 'A6'],
